@@ -11,6 +11,7 @@ import DebInspector.Props.C05
 import DebInspector.Props.C07
 import DebInspector.Props.C10
 import DebInspector.Props.C11
+import DebInspector.Props.C12
 import DebInspector.Props.C14
 import DebInspector.Props.C15
 import DebInspector.Props.C17
@@ -32,6 +33,7 @@ def dispatch (op : String) (v : Val) : Option Val :=
   | "C07" => Props.C07.check.run v
   | "C10" => Props.C10.check.run v
   | "C11" => Props.C11.check.run v
+  | "C12" => Props.C12.check.run v
   | "C14" => Props.C14.check.run v
   | "C14e" => Props.C14.checkE.run v
   | "C15" => Props.C15.check.run v
